@@ -254,7 +254,8 @@ def _lockset_census(ctx: Context) -> None:
                             if blk is not None else []
                         if any(z is wst for z in sibs):
                             later = [y for s_ in sibs[next(k_ for k_, z in enumerate(sibs) if z is wst) + 1:] for y in ast.walk(s_)
-                                     if isinstance(y, ast.Attribute) and isinstance(y.value, ast.Name) and y.value.id == "self" and not isinstance(y.ctx, ast.Load) and y.attr != fld]
+                                     if isinstance(y, ast.Attribute) and isinstance(y.value, ast.Name) and y.value.id == "self" and not isinstance(y.ctx, ast.Load) and y.attr != fld
+                                     and not isinstance(parent(y), ast.AugAssign)]        # an update of a field that already exists initialises nothing
                             if later:
                                 early.append((wx, later[0]))
                 if gates and early:
@@ -320,6 +321,10 @@ def _lockset_census(ctx: Context) -> None:
                         positive = par_ is q or (isinstance(par_, ast.BoolOp) and isinstance(par_.op, ast.And)) or \
                             (isinstance(par_, ast.Compare) and isinstance(par_.ops[0], ast.IsNot) and isinstance(par_.comparators[0], ast.Constant) and par_.comparators[0].value is None)
                         ok = monotonic and positive
+                        # the same for a flag that is only ever SET (every store outside the constructor is the constant True), tested for being set
+                        set_once = bool(wvals) and all(isinstance(v_, ast.Constant) and v_.value is True for v_ in wvals)
+                        if not ok and set_once and (par_ is q or isinstance(par_, ast.BoolOp)):
+                            ok = True
                     # a branch that only raises / returns a refusal acts on nothing shared; a branch that calls or stores does
                     acts = any(isinstance(y, (ast.Call, ast.Attribute)) and (isinstance(y, ast.Call) or not isinstance(y.ctx, ast.Load)) for st_ in q.body for y in ast.walk(st_)
                                if not (isinstance(y, ast.Call) and isinstance(parent(y), ast.Raise)))
